@@ -70,6 +70,7 @@ import (
 	_ "github.com/megaease/easegress/pkg/filters/validator"
 	"github.com/megaease/easegress/pkg/object/pipeline"
 	"github.com/megaease/easegress/pkg/protocols/httpprot"
+	"github.com/megaease/easegress/pkg/protocols/mqttprot"
 	"github.com/megaease/easegress/pkg/protocols/httpprot/httpstat"
 	"github.com/megaease/easegress/pkg/supervisor"
 	"verif/simkit/sim"
@@ -98,6 +99,8 @@ type c11Hooks struct {
 	// mqPark is called by a C11Park filter that meets a request which is not an
 	// HTTP request (the MQTT CONNECT of the neighbour MQTTProxy's Connect pipeline).
 	mqPark func()
+	// mqSeen reports (tag, generation) of the C11Park filter an MQTT request passes.
+	mqSeen func(tag string, gen int, req *mqttprot.Request)
 }
 
 var c11Cur *c11Hooks
@@ -147,7 +150,11 @@ func c11Atoi(s string) int {
 func (p *c11Park) Handle(ctx *context.Context) string {
 	req, _ := ctx.GetInputRequest().(*httpprot.Request)
 	if req == nil {
-		if hk := c11Cur; hk != nil && hk.mqPark != nil {
+		mreq, _ := ctx.GetInputRequest().(*mqttprot.Request)
+		if hk := c11Cur; hk != nil && mreq != nil && hk.mqSeen != nil {
+			hk.mqSeen(p.spec.Tag, p.spec.Gen, mreq)
+		}
+		if hk := c11Cur; hk != nil && hk.mqPark != nil && p.spec.Tag == "mqauth" {
 			hk.mqPark()
 		}
 		return ""
